@@ -1,9 +1,9 @@
 """Controlled cooperative scheduler for real threads (used by C16).
 
 Real OS threads run the real code, but only one of them runs at any time: every managed
-thread owns a semaphore and waits on it; the driver (the thread that called
-``Scheduler.run``) picks one enabled thread, releases its semaphore and waits until that
-thread hands control back at its next *switch point*.  Switch points are
+thread owns a binary semaphore and waits on it; the thread that reaches a *switch point*
+takes the scheduling decision itself (asks the ``chooser``), and either simply continues or
+wakes the chosen thread and goes to sleep on its own semaphore.  Switch points are
 
 * every ``line`` event (``sys.settrace``) in a frame whose code comes from the traced file
   (``supp/remote.py``) - all of them in ``full`` mode, only the lines of ``visible`` in
@@ -11,16 +11,17 @@ thread hands control back at its next *switch point*.  Switch points are
 * every blocking operation of the scheduler-aware ``SchedLock`` / ``SchedThread.join`` /
   a fake connection's ``recv`` - the thread parks with a *pending* operation and is enabled
   only when that operation can complete, so the enabled set is always known and
-  "no thread enabled, some not done" is a deadlock.
+  "no thread enabled, some not done" is a deadlock,
+* explicit ``park`` calls of the harness (operation boundaries of client scripts).
 
-A ``chooser`` decides which enabled thread runs next; ``Explorer`` drives a depth-first
-enumeration of all choices like a stateless model checker (re-execute from the start,
-replay a prefix, then default choices), optionally with a preemption bound or with sleep
-sets (partial-order reduction from recorded per-step access sets).
+``Explorer`` drives a depth-first enumeration of all choices like a stateless model checker
+(re-execute from the start, replay a prefix, then default choices), optionally with a
+preemption bound (and split into independent sub-trees) or with sleep sets (partial-order
+reduction from the access sets recorded for every step).
 
-All state is per ``Scheduler`` instance; the dispatching fakes find their scheduler
-through a thread-local, so threads that linger from an aborted run can never touch the
-next run.
+All state is per ``Scheduler`` instance; the fakes find their scheduler through a
+thread-local that is set per job, and a pooled OS thread is reused only after its job has
+returned, so threads that linger from an abandoned run can never touch the next run.
 """
 import ast
 import hashlib
@@ -693,7 +694,6 @@ class Explorer(object):
 
     def _sleep(self):
         stack = []        # nodes: dict(enabled, cur, sleep{tid:acc}, done{tid:acc}, chosen)
-        outer = self
 
         class Ch(object):
             def __init__(self):
